@@ -45,21 +45,37 @@ GenLinear(hs, s, t) ==
 
 \* nil proof is modelled as the record with empty sequences
 NoLadv == [terms |-> <<>>, incls |-> <<>>]
-GenLadv(hs, s, t, tbl) ==
+\* `tree`: the leaves of the binary-linking tree the server holds.  An honest server's tree is Alhs(hs); a split-view
+\* server keeps a well-formed linear chain while its tree has a foreign leaf somewhere (HistPoison below).
+GenLadvT(hs, tree, s, t, tbl) ==
   IF t <= s + 1 THEN NoLadv
   ELSE [terms |-> [q \in 1..(t - s) |-> IF q = 1 THEN HAlh(hs[s + 1]) ELSE HInner(hs[s + q])],
-        incls |-> [q \in 1..(t - s - 1) |-> Path(Alhs(hs), s + q, 1, tbl)]]
+        incls |-> [q \in 1..(t - s - 1) |-> Path(tree, s + q, 1, tbl)]]
+GenLadv(hs, s, t, tbl) == GenLadvT(hs, Alhs(hs), s, t, tbl)
 
 \* src, tgt: tx ids with src <= tgt
-GenDual(hs, src, tgt) ==
-  LET a == Alhs(hs)  S == hs[src]  T == hs[tgt] IN
+GenDualT(hs, tree, src, tgt, tblFromTree) ==
+  LET S == hs[src]  T == hs[tgt] IN
   [srcHdr |-> S, tgtHdr |-> T,
-   incl |-> IF src < T.bl THEN Path(a, src, 1, T.bl) ELSE <<>>,
-   cons |-> IF S.bl > 0 THEN RefConsistency(a, S.bl, T.bl) ELSE <<>>,
-   tblAlh |-> IF T.bl > 0 THEN a[T.bl] ELSE ZeroDigest,
-   last |-> IF T.bl > 0 THEN Path(a, T.bl, 1, T.bl) ELSE <<>>,
+   incl |-> IF src < T.bl THEN Path(tree, src, 1, T.bl) ELSE <<>>,
+   cons |-> IF S.bl > 0 THEN RefConsistency(tree, S.bl, T.bl) ELSE <<>>,
+   tblAlh |-> IF T.bl > 0 THEN (IF tblFromTree THEN tree[T.bl] ELSE HAlh(hs[T.bl])) ELSE ZeroDigest,
+   last |-> IF T.bl > 0 THEN Path(tree, T.bl, 1, T.bl) ELSE <<>>,
    lin |-> GenLinear(hs, MaxN(src, T.bl), tgt),
-   ladv |-> GenLadv(hs, S.bl, MinN(src, T.bl), T.bl)]
+   ladv |-> GenLadvT(hs, tree, S.bl, MinN(src, T.bl), T.bl)]
+GenDual(hs, src, tgt) == GenDualT(hs, Alhs(hs), src, tgt, FALSE)
+
+\* split view: the linear chain is well formed, the binary-linking tree has a foreign leaf at position p
+ForeignLeaf == Junk(99)
+TreeLeaves(hs, p) == [k \in 1..Len(hs) |-> IF k = p THEN ForeignLeaf ELSE HAlh(hs[k])]
+RECURSIVE HistPoison(_, _, _, _)
+HistPoison(shape, var, n, p) ==
+  IF n = 0 THEN <<>>
+  ELSE LET hs == HistPoison(shape, var, n - 1, p)
+           bl == shape[n]
+       IN Append(hs, [id |-> n, prev |-> IF n = 1 THEN GenesisAlh ELSE HAlh(hs[n - 1]),
+                      ts |-> 100 + n, ver |-> n % 2, nent |-> 1, eh |-> Eh(n, var[n]),
+                      bl |-> bl, blroot |-> IF bl = 0 THEN ZeroDigest ELSE MTH(TreeLeaves(hs, p), 1, bl)])
 
 -----------------------------------------------------------------------------
 (* verification (store/verification.go)                                     *)
@@ -85,6 +101,7 @@ VerifyLadv(p, startTx, endTx, endAlh, root, size) ==
   ELSE IF Len(p.terms) # endTx - startTx \/ Len(p.incls) # endTx - startTx - 1 THEN FALSE
   ELSE LET r == LadvLoop(p, startTx + 1, startTx, endTx, p.terms[1], root, size) IN r[1] /\ r[2] = endAlh
 
+CONSTANT TblBoundToSource   \* VerifyDualProof, source = last leaf of the target tree: TRUE = TargetBlTxAlh is compared with the source Alh
 VerifyDual(p, srcID, tgtID, srcAlh, tgtAlh) ==
   LET S == p.srcHdr  T == p.tgtHdr IN
   /\ S.id = srcID /\ T.id = tgtID
@@ -96,7 +113,8 @@ VerifyDual(p, srcID, tgtID, srcAlh, tgtAlh) ==
   /\ IF srcID < T.bl
      THEN /\ VerifyLinear(p.lin, T.bl, tgtID, p.tblAlh, tgtAlh)
           /\ VerifyLadv(p.ladv, S.bl, srcID, srcAlh, T.blroot, T.bl)
-     ELSE /\ VerifyLinear(p.lin, srcID, tgtID, srcAlh, tgtAlh)
+     ELSE /\ (TblBoundToSource /\ srcID = T.bl => p.tblAlh = srcAlh)
+          /\ VerifyLinear(p.lin, srcID, tgtID, srcAlh, tgtAlh)
           /\ VerifyLadv(p.ladv, S.bl, T.bl, p.tblAlh, T.blroot, T.bl)
 
 -----------------------------------------------------------------------------
